@@ -49,7 +49,7 @@ def tiers():
             runs[e['tier']] = fmt(c.get('obligations'), c.get('discharged'), len(c.get('inconclusive', [])), len({x['obligation'] for x in c.get('known_findings', [])}), e.get('wall_s'), c.get('partial_run_filter'))
             o = c.get('other_tier_last_run')
             if o and o.get('tier'):
-                runs[o['tier']] = fmt(o.get('obligations'), o.get('discharged'), len(o.get('inconclusive') or []), 0, o.get('wall_s'), o.get('partial_run_filter'))
+                runs[o['tier']] = fmt(o.get('obligations'), o.get('discharged'), o.get('inconclusive_count', len(o.get('inconclusive') or [])), 0, o.get('wall_s'), o.get('partial_run_filter'))
         except Exception:
             pass
         rows.append('| %s | %s | %s | %s | %s |' % (pid, cnt('quick'), cnt('thorough'), runs['quick'], runs['thorough']))
